@@ -210,6 +210,7 @@ class Path:
         name = f"{self.func_label}#{kind}" + (f":{detail}" if detail else "")
         o = Obligation(name, kind, self.facts, goal, self.func_label, self.path_id(), lineno, note=note)
         o.args = getattr(self, "args", None)
+        o.ghost = self.ghost
         self.obls.append(o)
 
     def cover(self, detail, cond=True):
@@ -364,6 +365,8 @@ class Engine:
             lib_numpy.install(self)
         except ImportError:
             pass
+        from . import strings as _strings
+        _strings.install_re(self)
         for extra in ("lib_pandas", "lib_h5py", "lib_misc"):
             try:
                 mod = __import__(f"pyvc.{extra}", fromlist=["install"])
@@ -485,6 +488,12 @@ class Engine:
         ghost = args.pop("__ghost__", None)
         if ghost:
             path.ghost.update(ghost)
+        free = args.pop("__free__", None)
+        if free:
+            # free variables of a nested function under contract (closure environment)
+            fn = Closure(fn.node, Env(fn.env, dict(free)), fn.module, fn.qualname, fn.cls)
+            fn.allow_inline = True
+            path.ghost["__free__"] = dict(free)
         call_args = dict(args)
         path.args = dict(call_args)
         args = _cargs(args)
@@ -1842,6 +1851,9 @@ class Interp:
             return self.concrete_binop(op, a, b)
         if isinstance(a, Arr) or isinstance(b, Arr):
             return self.arr_binop(op, a, b, node)
+        if isinstance(a, z3.FPRef) or isinstance(b, z3.FPRef):
+            from .floats import fp_binop
+            return fp_binop(self, op, a, b, node)
         if isinstance(a, (Quot, RealV)) or isinstance(b, (Quot, RealV)):
             return self.real_binop(op, a, b, node)
         if isinstance(a, (list, tuple, SegList, SymList)) and isinstance(op, ast.Add):
